@@ -103,3 +103,103 @@ Proof.
               (fun x Hx => consecutive_dates_months_in_range n y m d x Hx)) as (out & E & Lo & H).
   exists out. split; [exact E|]. split; [congruence|]. intros k Hk. apply H. lia.
 Qed.
+
+(* ---------- the functional specification: which value lands where ---------- *)
+Section PutMaskVal.
+Variable V : Type.
+Lemma put_mask_val (b : list (option V)) : forall m vals k, length m = length b -> (ctrue m <= length vals)%nat -> (k < length b)%nat ->
+  nth k m false = true -> nth k (put_mask V b m vals) None = nth_error vals (ctrue (firstn k m)).
+Proof.
+  induction b as [|x b IH]; intros m vals k L Hc Hk Hm; [cbn in Hk; lia|].
+  destruct m as [|mb m]; [discriminate|]. cbn in L. injection L as L. unfold ctrue in Hc. cbn [filter] in Hc.
+  destruct mb.
+  - destruct vals as [|v vals]; [cbn in Hc; lia|]. cbn [put_mask]. destruct k as [|k].
+    + reflexivity.
+    + cbn [nth firstn]. unfold ctrue. cbn [filter length nth_error]. apply IH; [exact L | cbn in Hc; unfold ctrue; lia | cbn in Hk; lia | exact Hm].
+  - cbn [put_mask]. destruct k as [|k]; [discriminate|].
+    cbn [nth firstn]. unfold ctrue. cbn [filter]. apply IH; [exact L | exact Hc | cbn in Hk; lia | exact Hm].
+Qed.
+End PutMaskVal.
+
+Section MonthsSpec.
+Variables (T V : Type).
+Variables (mo mh mf : list Z) (obs hist fut : list T).
+Variable W : list T -> list T -> list T -> list V.
+Hypothesis Hlen : length fut = length mf.
+Hypothesis HW : forall o h f, length (W o h f) = length f.
+Let n := length mf.
+
+(** the pipeline result for month m, and the value time step k receives: the entry of its month's result at
+    k's position among the time steps of that month *)
+Definition month_result (m : Z) : list V :=
+  W (NP.select obs (map (Z.eqb m) mo)) (NP.select hist (map (Z.eqb m) mh)) (NP.select fut (map (Z.eqb m) mf)).
+Definition value_at (k : nat) : option V :=
+  let m := nth k mf 0 in nth_error (month_result m) (ctrue (firstn k (map (Z.eqb m) mf))).
+
+Lemma mstep_val b m : length b = n ->
+  exists b', mstep T V mo mh mf obs hist fut W (Some b) m = Some b' /\ length b' = n /\
+    forall k, (k < n)%nat ->
+      (nth k mf 0 = m -> nth k b' None = value_at k) /\
+      (nth k mf 0 <> m -> nth k b' None = nth k b None).
+Proof.
+  intro Lb. unfold mstep. cbv zeta.
+  change (W (NP.select obs (map (Z.eqb m) mo)) (NP.select hist (map (Z.eqb m) mh)) (NP.select fut (map (Z.eqb m) mf))) with (month_result m).
+  set (mask := map (Z.eqb m) mf).
+  assert (Lm : length mask = length fut) by (unfold mask; rewrite map_length; symmetry; exact Hlen).
+  assert (Lv : length (month_result m) = ctrue mask).
+  { unfold month_result. rewrite HW. apply select_length. exact Lm. }
+  rewrite zcount_ctrue, Lv, Z.eqb_refl. eexists. split; [reflexivity|]. split; [rewrite put_mask_length; exact Lb|].
+  intros k Hk. split; intro H.
+  - unfold value_at. rewrite H. fold mask. apply put_mask_val; [unfold mask; rewrite map_length; lia | rewrite Lv; lia | lia |].
+    unfold mask. rewrite (nth_eqb_mask mf m k Hk). apply Z.eqb_eq. symmetry; exact H.
+  - destruct (put_mask_nth V b mask (month_result m) k) as [_ P0]; [unfold mask; rewrite map_length; lia | rewrite Lv; lia | lia |].
+    apply P0. unfold mask. rewrite (nth_eqb_mask mf m k Hk). apply Z.eqb_neq. intro E; apply H; symmetry; exact E.
+Qed.
+
+Lemma mfold_val ms : NoDup ms -> forall b, length b = n ->
+  exists b', fold_left (mstep T V mo mh mf obs hist fut W) ms (Some b) = Some b' /\ length b' = n /\
+    forall k, (k < n)%nat ->
+      (In (nth k mf 0) ms -> nth k b' None = value_at k) /\ (~ In (nth k mf 0) ms -> nth k b' None = nth k b None).
+Proof.
+  induction 1 as [|m ms Hnin Hnd IH]; intros b Lb.
+  - exists b. split; [reflexivity|]. split; [exact Lb|]. intros k Hk. split; [intros []|reflexivity].
+  - cbn [fold_left]. destruct (mstep_val b m Lb) as (b1 & E1 & L1 & H1). rewrite E1.
+    destruct (IH b1 L1) as (b' & E' & L' & H'). exists b'. split; [exact E'|]. split; [exact L'|].
+    intros k Hk. destruct (H1 k Hk) as [Hin Hout]. destruct (H' k Hk) as [Hin' Hout'].
+    split.
+    + intros [Em | Hms].
+      * rewrite Hout'; [apply Hin; symmetry; exact Em | rewrite <- Em; exact Hnin].
+      * apply Hin'; exact Hms.
+    + intro Hn. rewrite Hout'; [|intro; apply Hn; right; assumption]. apply Hout. intro E; apply Hn; left; symmetry; exact E.
+Qed.
+
+Theorem months_driver_spec : (forall m, In m mf -> 1 <= m <= 12) ->
+  exists out, months_driver V mo mh mf obs hist fut W = Some out /\ length out = length mf /\
+    forall k, (k < length mf)%nat -> nth k out None = value_at k.
+Proof.
+  intro Hm. rewrite (months_driver_fold T V mo mh mf obs hist fut W).
+  destruct (mfold_val (NP.arange1 1 13) (arange_nodup 1 13 1) (repeat None n) (repeat_length _ _)) as (out & E & Lo & H).
+  exists out. split; [exact E|]. split; [exact Lo|]. intros k Hk. apply (H k Hk).
+  apply in_arange1. assert (Hin : In (nth k mf 0) mf) by (apply nth_In; exact Hk). specialize (Hm _ Hin). lia.
+Qed.
+End MonthsSpec.
+
+(** locality of the month mode: the value of a time step depends only on the three series' values of ITS month
+    (and on which time steps carry that month) *)
+Theorem months_driver_local (T V : Type) (mo mh mf : list Z) (obs hist fut obs' hist' fut' : list T)
+        (W : list T -> list T -> list T -> list V) (k : nat) :
+  length fut = length mf -> length fut' = length mf -> (forall o h f, length (W o h f) = length f) ->
+  (forall m, In m mf -> 1 <= m <= 12) -> (k < length mf)%nat ->
+  let m := nth k mf 0 in
+  NP.select obs (map (Z.eqb m) mo) = NP.select obs' (map (Z.eqb m) mo) ->
+  NP.select hist (map (Z.eqb m) mh) = NP.select hist' (map (Z.eqb m) mh) ->
+  NP.select fut (map (Z.eqb m) mf) = NP.select fut' (map (Z.eqb m) mf) ->
+  forall out out', months_driver V mo mh mf obs hist fut W = Some out ->
+    months_driver V mo mh mf obs' hist' fut' W = Some out' -> nth k out None = nth k out' None.
+Proof.
+  intros Hl Hl' HW Hm Hk m Eo Eh Ef out out' E E'.
+  destruct (months_driver_spec T V mo mh mf obs hist fut W Hl HW Hm) as (o1 & E1 & _ & S1).
+  destruct (months_driver_spec T V mo mh mf obs' hist' fut' W Hl' HW Hm) as (o2 & E2 & _ & S2).
+  rewrite E in E1. rewrite E' in E2. inversion E1; inversion E2; subst o1 o2.
+  rewrite (S1 k Hk), (S2 k Hk). unfold value_at, month_result. fold m. rewrite Eo, Eh, Ef. reflexivity.
+Qed.
